@@ -16,7 +16,9 @@ RULE = ("Hypothesis-generated scenarios with 2-6 chromosomes, read groups (tag),
         "overlapping genes sharing exons, novel isoforms; a configuration pair (A, B) differing in any of --threads "
         "{1,2,3,5,16}, PYTHONHASHSEED (drawn 32-bit values), --high_memory, --keep_tmp, or plain repetition; both "
         "runs are separate `python isoquant.py` processes. Non-trivial = pair differs in >= 1 dimension and the "
-        "outputs contain >= 1 novel transcript and >= 2 groups; distinct by scenario hash. Stage workers: the same "
+        "outputs contain >= 1 novel transcript and >= 2 groups; distinct by scenario hash. Stage deep_pairs: loci cut into >= 2 processing regions "
+        "(templates of C05/C03) run with and without --high_memory (plus threads / hash seed); every pair is "
+        "non-trivial. Stage workers: the same "
         "scenarios, 2-3 generated task->worker assignments per pool (all on one worker, all distinct, pairs, random; "
         "2-16 workers) executed by vlib/schedpool.py in place of ProcessPoolExecutor, each compared with --threads 1; "
         "non-trivial = two assignments differ in which chromosomes share a worker and >= 1 novel transcript.")
@@ -139,11 +141,52 @@ def evaluate(case, ctx):
             novel = sum(1 for l in parse.data_lines(files["transcript_models.gtf"])
                         if "\ttranscript\t" in l and ('nic";' in l))
         groups = len(set((r.get("tags") or {}).get("RG", "NA") for r in sc["reads"])) if sc["grouped"] else 1
-        if novel and groups >= 2:
+        if sc.get("deep"):
+            ctx.cls("template=" + sc["template"])
+            ctx.mark_nontrivial(case_hash(case))
+        elif novel and groups >= 2:
             ctx.mark_nontrivial(case_hash(case))
             ctx.sample(pipeline.summarize(sc, {"A": sc["A"], "B": sc["B"], "novel": novel, "groups": groups}), limit=2)
     finally:
         ra.cleanup()
+
+
+@st.composite
+def deep_scenarios(draw):
+    """Loci that are cut into several processing regions (pile-ups, plateaus, long sparse genes, see C05); the memory
+    modes take different code paths for exactly these (region fetch from BAM vs in-memory alignment index)."""
+    rnd = draw(st.randoms(use_true_random=True))
+    src = S.RndSrc(rnd)
+    annotated = draw(st.sampled_from([True, True, False]))
+    tmpl = draw(st.sampled_from(["pileups", "plateau", "long_gene", "straddle"]))
+    if tmpl == "plateau":
+        sc = S.gen_plateau_locus(src, with_annotation=annotated)
+    elif tmpl == "pileups":
+        sc = S.gen_deep_locus(src, with_annotation=annotated, max_reads=600)
+    else:
+        sc = S.gen_long_gene_locus(src, with_annotation=annotated, straddle=tmpl == "straddle")
+    sc["template"] = tmpl
+    opts = ["--data_type", draw(st.sampled_from(["nanopore", "pacbio_ccs"])), "--no_gzip"]
+    if draw(st.booleans()):
+        opts += ["--count_exons"]
+    if annotated and draw(st.booleans()):
+        opts += ["--sqanti_output"]
+    sc["opts"] = opts
+    a = {"threads": draw(st.sampled_from([1, 2, 3])), "hashseed": draw(st.integers(0, 4294967295)),
+         "high_memory": draw(st.booleans()), "keep_tmp": False}
+    b = dict(a)
+    b["high_memory"] = not a["high_memory"]
+    dims = ["high_memory"]
+    if draw(st.booleans()):
+        b["threads"] = draw(st.sampled_from([t for t in [1, 2, 3] if t != a["threads"]]))
+        dims.append("threads")
+    if draw(st.booleans()):
+        b["hashseed"] = draw(st.integers(0, 4294967295))
+        dims.append("hashseed")
+    sc["A"], sc["B"], sc["dims"] = a, b, dims
+    sc["grouped"] = False
+    sc["deep"] = True
+    return sc
 
 
 @st.composite
@@ -228,4 +271,5 @@ def evaluate_workers(case, ctx):
 def stages(tier):
     q = tier == "quick"
     return [Stage("pairs", "hyp", evaluate, n=64 if q else 1200, strategy=scenarios),
+            Stage("deep_pairs", "hyp", evaluate, n=48 if q else 600, strategy=deep_scenarios),
             Stage("workers", "hyp", evaluate_workers, n=96 if q else 1500, strategy=worker_scenarios)]
